@@ -233,7 +233,7 @@ def parseRedun (tok : String) : Option (List (String × Nat × Int)) := do
     | [f, l, d] => do
       let l ← l.toNat?
       let d ← d.toInt?
-      if l < 3 && ["lio", "fvo", "fvs", "fis", "lvs", "lis"].contains f then some (f, l, d) else none
+      if l < 3 && ["lio", "fvo", "fvs", "fis", "lvs", "lis", "fss", "frs"].contains f then some (f, l, d) else none
     | _ => none
 
 def redunFH (fh : FileHeader) (r : String × Nat × Int) : FileHeader :=
@@ -241,6 +241,10 @@ def redunFH (fh : FileHeader) (r : String × Nat × Int) : FileHeader :=
   if f == "fvo" then { fh with vertexOffsets := setArr3 fh.vertexOffsets l (addDelta d) }
   else if f == "fvs" then { fh with vertexBufferSize := setArr3 fh.vertexBufferSize l (addDelta d) }
   else if f == "fis" then { fh with indexBufferSize := setArr3 fh.indexBufferSize l (addDelta d) }
+  -- the stored stack / runtime sizes: the reader walks the runtime block by its own counts and never
+  -- looks at them (the LOD number of the token is not used)
+  else if f == "fss" then { fh with stackSize := addDelta d fh.stackSize }
+  else if f == "frs" then { fh with runtimeSize := addDelta d fh.runtimeSize }
   else fh
 
 def redunMD (md : ModelData) (r : String × Nat × Int) : ModelData :=
@@ -255,18 +259,38 @@ def redunMD (md : ModelData) (r : String × Nat × Int) : ModelData :=
 def handle (line : String) : String :=
   match fields line with
   | "wredun" :: rtok :: toks =>
-    match parseModel toks, parseRedun rtok with
-    | some a, some rs =>
+    let (mt, et) := splitBar toks
+    match parseModel mt, parseRedun rtok, et.mapM parseEdit with
+    | some a, some rs, some es =>
       let file := encFileHeader (rs.foldl redunFH (fileHeader a)) ++
         (encModelData a.version (rs.foldl redunMD (modelData a)) ++ sections a)
-      let (ans, _) := modelRun file [] true true
-      let input := "editr " ++ Bytes.toHex file
-      match inQuantifier a, view a with
-      | true, some v =>
-        answer input ("ok fheq=1 mdeq=1 sz=- pad=- dis=- inb=- " ++ viewText v)
-          (["corr", "redundant-copies"] ++ kfTags a) (some ans)
-      | _, _ => answer input ans ["triv", whyOutside a]
-    | _, _ => bad
+      if es.isEmpty then
+        let (ans, _) := modelRun file [] true true
+        let input := "editr " ++ Bytes.toHex file
+        match inQuantifier a, view a with
+        | true, some v =>
+          answer input ("ok fheq=1 mdeq=1 sz=- pad=- dis=- inb=- " ++ viewText v)
+            (["corr", "redundant-copies"] ++ kfTags a) (some ans)
+        | _, _ => answer input ans ["triv", whyOutside a]
+      else
+        -- an edit history on such a file: every edit ends with `update_headers`, which recomputes
+        -- all copies — the written file must be the one the same history gives on the consistent file
+        match concretizeAll a es with
+        | none => bad
+        | some ces =>
+          let (ans, _) := modelRun file ces
+          let input := "edit " ++ Bytes.toHex file ++ String.join (ces.map fun c => " " ++ ceditText c)
+          -- a perturbed copy of a LOD the model does not use (index ≥ lod_count) is not touched by
+          -- `update_headers`: the header-consistency flags, which look at all three slots, are then
+          -- not the specification's business — model against code only
+          let unused := rs.any fun (f, l, _) => f != "fss" && f != "frs" && l ≥ a.lodCount.toNat
+          match applyEdits a es with
+          | some a' =>
+            match inQuantifier a && inQuantifier a' && !unused, view a' with
+            | true, some v => answer input (specText true v) (["corr", "redundant-copies"] ++ kfTags a') (some ans)
+            | _, _ => answer input ans ["triv", if inQuantifier a then whyOutside a' else whyOutside a]
+          | none => answer input ans ["triv", "outside:edit"]
+    | _, _, _ => bad
   | "mut" :: seed :: k :: "write" :: toks =>
     -- the encoded file with `k` damaged bytes (Base/Mutate.lean) through parse → write → parse:
     -- model of the code vs the code (no specification answer for a damaged file)
